@@ -130,30 +130,45 @@ def consumption(repo: Repo, chk: Check) -> None:
 
 
 def validate_tag(repo: Repo, chk: Check) -> None:
+    """Symbolic result of _validate_tag on every returning path: (data[TL : TL + DL], TL + DL) with (TL, DL) the header
+    and content lengths of the caller's peeked header or of _read_asn1_header(data), returned only when at least DL
+    octets follow the header."""
+    from sa.symeval import SView, STuple  # noqa: F401
+
     f = repo.func("_asn1._validate_tag")
     chk.analysed(f)
-    g = build(f.node)
-    rets = [x for x in body_nodes(f.node) if isinstance(x, ast.Return)]
-    if len(rets) != 1 or not isinstance(rets[0].value, ast.Tuple):
-        chk.ob("O1", Site.of(f, construct="_validate_tag return"), False, "_validate_tag no longer returns a single (content, consumed) pair")
-        return
-    r = rets[0]
-    content, consumed = r.value.elts  # type: ignore[union-attr]
-    okc = unparse(consumed) in ("tag_length + data_length", "data_length + tag_length")
-    chk.ob("O1", Site.of(f, r), okc, "consumed = header octets + content octets" if okc else f"consumed is '{unparse(consumed)}', expected tag_length + data_length")
-    okv = unparse(content) == "view[:data_length]"
-    skip = [x for x in body_nodes(f.node) if isinstance(x, ast.Assign) and unparse(x) == "view = view[tag_length:]"]
-    chk.ob("O1", Site.of(f, r), okv and len(skip) == 1, "content = the data_length octets after the header" if okv and skip else f"content is '{unparse(content)}' after {[unparse(s) for s in skip]}")
-    nid = g.first_of_stmt.get(r)
-    guards = g.guards_of(nid) if nid is not None else []
-    okg = any(isinstance(c, ast.Compare) and unparse(c) == "len(view) < data_length" and pol is False for c, pol in guards)
-    chk.ob("O1", Site.of(f, construct="not enough data raises"), okg, "returns only when all content octets are present" if okg else "no dominating 'len(view) < data_length -> raise' before returning the content")
-    okt = any(isinstance(c, ast.Compare) and unparse(c) == "actual_tag != expected_tag" and pol is False for c, pol in guards)
-    chk.ob("O1", Site.of(f, construct="tag mismatch raises"), okt, "a tag other than the expected one is rejected")
-    # header source: the given header or _read_asn1_header(view)
-    hdr = [x for x in body_nodes(f.node) if isinstance(x, ast.Assign) and isinstance(x.targets[0], ast.Tuple) and unparse(x.targets[0]) == "(actual_tag, tag_length, data_length)"]
-    srcs = sorted(unparse(x.value) for x in hdr)
-    chk.ob("O1", Site.of(f, hdr[0] if hdr else None, None if hdr else "header source"), srcs == ["_read_asn1_header(view)", "header"], "header = caller's peeked header or _read_asn1_header(view)" if srcs == ["_read_asn1_header(view)", "header"] else f"header comes from {srcs}")
+    src = f.params[0]
+    hdr = f.params[3]
+    n = 0
+    hdr_cls = repo.cls("_asn1.ASN1Header")
+    fields = [x.name for x in hdr_cls.fields()]
+    if fields != ["tag", "tag_length", "length"]:
+        raise AnalysisError(f"ASN1Header fields changed: {fields}")
+    for st, out in layout.Interp(repo, f).run(layout.self_state(repo, f)):
+        if out.kind != "return":
+            continue
+        n += 1
+        given = any(c.info.get("truthy") == hdr and pol for c, pol in st.conds)
+        site = Site.of(f, out.node, f"_validate_tag returns [{'peeked header given' if given else 'header read here'}]")
+        if given:
+            tl, dl = Lin.atom(("field", f"{hdr}.tag_length")), Lin.atom(("field", f"{hdr}.length"))
+        else:
+            calls = [c for c in st.calls if c.name.endswith("_read_asn1_header")]
+            okc = len(calls) == 1 and isinstance(calls[0].arg(0), SView) and calls[0].arg(0).src == src and calls[0].arg(0).lo == 0
+            chk.ob("O1", site, okc, "header decoded from the start of the data" if okc else "the header is not decoded from the start of the data given")
+            if not calls:
+                continue
+            tl, dl = Lin.atom(("opaque", f"{calls[0].result!r}[1]")), Lin.atom(("opaque", f"{calls[0].result!r}[2]"))
+        res = out.value
+        ok = isinstance(res, STuple) and len(res.items) == 2 and isinstance(res.items[0], SView) and res.items[0].src == src and res.items[0].lo == tl and res.items[0].hi == tl + dl and res.items[1] == tl + dl
+        chk.ob("O1", site, ok, "(content, consumed) = (data[TL : TL + DL], TL + DL)" if ok else f"_validate_tag returns {res!r}; expected (data[{tl!r} : {tl + dl!r}], {tl + dl!r})")
+        end = Lin.atom(("end", src))
+        guard = any(c.info.get("cmp") is not None and ((c.info["cmp"][0] == "lt" and c.info["cmp"][1] == end - tl and c.info["cmp"][2] == dl and pol is False) or (c.info["cmp"][0] == "ge" and c.info["cmp"][1] == end - tl and c.info["cmp"][2] == dl and pol)) for c, pol in st.conds)
+        chk.ob("O1", site, guard, "returned only when all content octets are present (else NotEnougData)" if guard else "no test that DL octets follow the header precedes the return: a truncated value is handed on as if complete")
+        tagcmp = any(("!=" in c.desc and pol is False) or ("==" in c.desc and pol) for c, pol in st.conds)
+        chk.ob("O1", site, tagcmp, "only for the expected tag")
+    chk.count("validate_tag paths", n)
+    chk.require_min("validate_tag paths", 2)
 
 
 # ------------------------------------------------------------------------- O2 reader
@@ -216,16 +231,41 @@ def header_reader(repo: Repo, chk: Check) -> None:
             chk.ob("O2", site, ln == lenval, "short form: length = the octet itself" if ln == lenval else f"short form length is {ln!r}")
     chk.count("header paths", n)
     chk.require_min("header paths", 4)
-    # literal checks that the symbolic table does not carry
-    txt = unparse(f.node)
-    okind = "if length == 128:" in txt and "raise ValueError" in txt
-    chk.ob("O2", Site.of(f, construct="indefinite length rejected"), okind, "0x80 (indefinite form) is rejected" if okind else "the indefinite length form is not rejected")
-    okcon = "constructed = bool(octet1 & 32)" in txt
-    chk.ob("O2", Site.of(f, construct="constructed bit"), okcon, "constructed = octet & 0x20" if okcon else "the constructed bit is not decoded as octet & 0x20")
-    okacc = "length += octet_val << 8 * (length_octets - 1 - idx)" in txt
-    chk.ob("O2", Site.of(f, construct="big-endian length accumulation"), okacc, "long form octets are big-endian" if okacc else "the long form length octets are not accumulated big-endian")
-    oke = txt.count("if not view:") >= 2 and "if len(view) < idx + 1:" in txt
-    chk.ob("O2", Site.of(f, construct="exhaustion raises NotEnougData"), oke, "each octet read is preceded by an exhaustion test")
+    # indefinite form (0x80) never reaches a return; constructed bit; big-endian accumulation of the long form
+    for p in paths:
+        ints = [r for r in p.reads if r.kind == "int"]
+        if len(ints) < 2:
+            continue
+        lenval = Lin.atom(("read", ints[1].rid))
+        rej = any(c.info.get("cmp") is not None and c.info["cmp"][0] in ("eq", "ne") and {repr(c.info["cmp"][1]), repr(c.info["cmp"][2])} == {repr(lenval), "128"} and pol is (c.info["cmp"][0] == "ne") for c, pol in p.conds)
+        chk.ob("O2", Site.of(f, construct="indefinite length rejected"), rej, "a returning path always has length octet != 0x80" if rej else "the indefinite length form (0x80) is not rejected on a returning path")
+        res = p.result
+        tag = res.fields.get("tag") if hasattr(res, "fields") else None
+        cons = tag.fields.get("is_constructed") if hasattr(tag, "fields") else None
+        r1 = Lin.atom(("read", ints[0].rid))
+        rec = getattr(cons, "rec", None)
+        okcon = rec is not None and rec.name == "bool" and rec.arg(0) == Lin.atom(("bitand", r1, Lin(0x20)))
+        chk.ob("O2", Site.of(f, construct="constructed bit"), bool(okcon), "constructed = bool(octet & 0x20)" if okcon else f"the constructed bit is decoded as {cons!r}, expected bool(octet & 0x20)")
+    okacc, why = big_endian_accumulation(repo, f)
+    chk.ob("O2", Site.of(f, construct="big-endian length accumulation"), okacc, why)
+
+
+def big_endian_accumulation(repo: Repo, f: Func) -> t.Tuple[bool, str]:
+    """for k in range(1, n): acc += octet << 8 * (n - 1 - k)   or   acc = (acc << 8) | octet  (most significant first)."""
+    for loop in [n for n in body_nodes(f.node) if isinstance(n, ast.For) and isinstance(n.target, ast.Name) and isinstance(n.iter, ast.Call) and unparse(n.iter.func) == "range" and len(n.iter.args) == 2]:
+        k = loop.target.id
+        stop = unparse(loop.iter.args[1])
+        for s in ast.walk(loop):
+            if isinstance(s, ast.AugAssign) and isinstance(s.op, ast.Add) and isinstance(s.value, ast.BinOp) and isinstance(s.value.op, ast.LShift):
+                sh = s.value.right
+                txt = unparse(sh).replace(" ", "")
+                if txt in (f"8*({stop}-1-{k})", f"({stop}-1-{k})*8", f"8*({stop}-{k}-1)"):
+                    return True, "octet k contributes octet << 8 * (count - 1 - k): most significant octet first"
+                return False, f"length octets are accumulated with shift '{unparse(sh)}', expected 8 * ({stop} - 1 - {k}) (big-endian)"
+            if isinstance(s, ast.Assign) and isinstance(s.value, ast.BinOp) and isinstance(s.value.op, (ast.BitOr, ast.Add)) and isinstance(s.value.left, ast.BinOp) and isinstance(s.value.left.op, ast.LShift):
+                if unparse(s.value.left.left) == unparse(s.targets[0]) and repo.try_fold(s.value.left.right, f.mod) == (True, 8):
+                    return True, "acc = (acc << 8) | octet: most significant octet first"
+    return False, "no big-endian accumulation of the long form length octets found"
 
 
 def _calls_on_path(repo: Repo, f: Func, path: layout.ReaderPath) -> t.List[t.Any]:
